@@ -214,6 +214,11 @@ def malformed(ctx, drv, rng):
         "arrival and priority on a later row that names no parent (a second root)": lambda r: (r[1].__setitem__(1, "0.75"), r[1].__setitem__(2, "QUERY"), r[1].__setitem__(4, "")),
         "unknown priority": lambda r: r[2].__setitem__(2, "URGENT"),
         "unknown scaling law": lambda r: r[1].__setitem__(6, "cubic"),
+        "unknown scaling law that starts like a known one (linear5)": lambda r: r[1].__setitem__(6, "linear5"),
+        "unknown scaling law that starts like a known one (logistic)": lambda r: r[1].__setitem__(6, "logistic"),
+        "unknown scaling law that starts like a known one (squareroot)": lambda r: r[1].__setitem__(6, "squareroot"),
+        "unknown scaling law in other letter case (CONST)": lambda r: r[1].__setitem__(6, "CONST"),
+        "unknown priority that starts like a known one (QUERYING)": lambda r: r[2].__setitem__(2, "QUERYING"),
         "undefined parent": lambda r: r[1].__setitem__(4, "op7"),
         "parent defined only later": lambda r: (r[0].__setitem__(4, "op2")),
     }
